@@ -393,7 +393,13 @@ ALLOCATE_CONTRACT(Q_AL8, RQ_AL8, bytes, 8UL);
  * ==================================================================================================== */
 #ifdef VF_BOUNDED_RELEASE
 #include <stdlib.h>
-#define B_PS 512UL
+#define B_PS 256UL
+#ifndef B_MAXARR
+#define B_MAXARR 1
+#endif
+#ifndef B_MINFIRST
+#define B_MINFIRST 12   /* newest array holds 1..3 entries */
+#endif
 unsigned nondet_uint(void);
 static unsigned b_pages_made, b_pages_freed, b_blocks_made, b_blocks_freed, b_dtor_expected, b_dtor_calls;
 
@@ -414,19 +420,19 @@ static void b_dtor(void *p) {
   b_dtor_calls++;
 }
 static char *b_page(void) { b_pages_made++; return (char *)malloc(B_PS); }
-static char *b_upblock(size_t bytes, size_t al) { b_blocks_made++; size_t *hdr = (size_t *)malloc(bytes + 16); hdr[0] = bytes; hdr[1] = al; return (char *)hdr + 16; }
+static char *b_upblock(size_t bytes, size_t al) { b_blocks_made++; size_t *hdr = (size_t *)malloc(512); /* constant-size host: the logical size is in the header */ hdr[0] = bytes; hdr[1] = al; return (char *)hdr + 16; }
 
 /* build `n` (<=2) chained PageArrays; array a is placed 8-aligned inside page number `host` of its own list */
 static void b_build_pages(R_t *r) {
-  unsigned n = nondet_uint(); __CPROVER_assume(n <= 2);
+  unsigned n = nondet_uint(); __CPROVER_assume(n <= B_MAXARR);
   PA_t *older = 0; r->_last_page_array = 0; r->_last_page_pointer = VF_NULL_LPP; r->_free_begin = r->_free_end = 0;
   for (unsigned a = 0; a < n; ++a) {
     unsigned first = (a + 1 == n) ? nondet_uint() : 0;      /* newest array: entries [first,15) are filled; older: full */
-    __CPROVER_assume(first <= 14);
+    __CPROVER_assume(first <= 14 && (a + 1 != n || first >= B_MINFIRST));
     char *pg[15];
     for (unsigned i = first; i < 15; ++i) pg[i] = b_page();
-    unsigned host = nondet_uint(); size_t off = nondet_size_t();
-    __CPROVER_assume(host >= first && host < 15 && (off & 7) == 0 && off + SZ_PA <= B_PS);
+    /* the array sits at the start or at the end of the newest or of the oldest page it records (covers the three placements) */
+    unsigned host = nondet_bool() ? first : 14; size_t off = nondet_bool() ? 0 : B_PS - SZ_PA;
     PA_t *A = (PA_t *)(pg[host] + off);
     A->next = older;
     for (unsigned i = first; i < 15; ++i) A->pages[i] = pg[i];
@@ -436,18 +442,18 @@ static void b_build_pages(R_t *r) {
   r->_space_allocated += (size_t)b_pages_made * B_PS;
 }
 static void b_build_oversize(R_t *r) {
-  unsigned n = nondet_uint(); __CPROVER_assume(n <= 2);
+  unsigned n = nondet_uint(); __CPROVER_assume(n <= B_MAXARR);
   OA_t *older = 0; r->_last_oversize_page_array = 0; r->_last_oversize_page_pointer = VF_NULL_OPP;
   for (unsigned a = 0; a < n; ++a) {
-    unsigned first = (a + 1 == n) ? nondet_uint() : 0; __CPROVER_assume(first <= 14);
+    unsigned first = (a + 1 == n) ? nondet_uint() : 0; __CPROVER_assume(first <= 14 && (a + 1 != n || first >= B_MINFIRST));
     /* the block that created the array hosts it behind its payload and is recorded in the last slot */
-    size_t payload = nondet_size_t(); __CPROVER_assume(payload <= 64 && (payload & 7) == 0);
+    size_t payload = nondet_bool() ? 0 : 16;
     char *hostb = b_upblock(payload + SZ_OA, 8);
     OA_t *A = (OA_t *)(hostb + payload);
     A->next = older;
     A->pages[14].page = hostb; A->pages[14].bytes = payload + SZ_OA; A->pages[14].alignment = 8;
     for (unsigned i = first; i < 14; ++i) {
-      size_t by = nondet_size_t(), al = nondet_size_t(); __CPROVER_assume(by >= 1 && by <= 64 && VF_POW2(al) && al <= 64);
+      size_t by = nondet_bool() ? 24 : 40, al = nondet_bool() ? 8 : 32;
       A->pages[i].page = b_upblock(by, al); A->pages[i].bytes = by; A->pages[i].alignment = al;
       r->_space_allocated += by;
     }
